@@ -18,15 +18,17 @@ from ..core import Report, MachineryError
 
 # tier -> [(generation config, sample quota)]
 CONFIGS = {
-    "quick": [("Scopes_blk_q.cfg", 900), ("Scopes_fn_q.cfg", 1100),
-              ("Scopes_ord_q.cfg", 500), ("Scopes_pass_q.cfg", 700)],
-    "thorough": [("Scopes_blk_t.cfg", 12000), ("Scopes_blk2_t.cfg", 8000),
-                 ("Scopes_fn_t.cfg", 14000), ("Scopes_fn2_t.cfg", 12000),
-                 ("Scopes_ord_t.cfg", 8000), ("Scopes_pass_t.cfg", 6000)],
+    "quick": [("Scopes_fn_q.cfg", 800), ("Scopes_pass_q.cfg", 450),
+              ("Scopes_blk_q.cfg", 650), ("Scopes_ord_q.cfg", 350),
+              ("Scopes_isa_q.cfg", 200)],
+    "thorough": [("Scopes_fn_t.cfg", 10000), ("Scopes_fn2_t.cfg", 10000),
+                 ("Scopes_isa_t.cfg", 6000), ("Scopes_pass_t.cfg", 6000),
+                 ("Scopes_blk_t.cfg", 8000), ("Scopes_ord_t.cfg", 5000),
+                 ("Scopes_blk2_t.cfg", 3000)],
 }
 GEN_TIMEOUT = {"quick": 300, "thorough": 1500}
-GEN_PARALLEL = {"quick": 4, "thorough": 3}
-GEN_WORKERS = {"quick": 4, "thorough": 5}
+GEN_PARALLEL = {"quick": 5, "thorough": 4}
+GEN_WORKERS = {"quick": 3, "thorough": 4}
 
 
 def sample_cases(src: str, n: int, rng: random.Random) -> List[str]:
@@ -103,7 +105,7 @@ def run(prop: str, tier: str, replay: str = None) -> int:
                     os.remove(part)
             rep.extra["generated_cases"] = gen_total
             rep.extra["sampled_cases"] = n
-        shards = core.split_file(cases, 16, wd, "cases")
+        shards = core.split_file(cases, 12 if tier == "quick" else 16, wd, "cases")
         traces = core.run_module_parallel("harness.scopes.runner", shards, wd, "scopes")
         verdicts = tlc.validate_sharded("TraceScopes.tla", "TraceScopes.cfg", traces, jobs=16)
         case_by_id = {}
